@@ -11,6 +11,7 @@ import (
 
 	"github.com/youchainhq/go-youchain/common"
 	"github.com/youchainhq/go-youchain/consensus/ucon"
+	"github.com/youchainhq/go-youchain/core"
 	"github.com/youchainhq/go-youchain/core/state"
 	"github.com/youchainhq/go-youchain/core/types"
 	"github.com/youchainhq/go-youchain/crypto"
@@ -832,6 +833,62 @@ func (s *sim) scriptAddThenClose() bool {
 	op := s.operatorOf(r, false)
 	msg := &staking.TxUpdateValidator{Nonce: s.nextNonce(op), MainAddress: a.key.Addr, AcceptDelegation: 0, CommissionRate: unset16, RiskObligation: unset16}
 	s.stakingTx(op, staking.ValidatorUpdate, msg, gasStaking, &intent{kind: "val-update", val: a.key.Addr}, fmt.Sprintf("val-update %s accept=0", a.name))
+	return true
+}
+
+// scriptCrowd (C06 only): a block that is nearly full by gas LIMITS and contains a transfer the
+// builder has to refuse for lack of value. X (highest gas price, so the worker takes its
+// transactions first) sends half of its balance away and, with the next nonce, a transfer of
+// more than what is then left after buying gas: admitted by the pool (each transaction alone is
+// affordable), executable, but refused and reverted by the builder (miner/worker.go:403). P and
+// Q (next prices) send plain transfers whose gas limits almost equal the block's: after X's
+// first transaction and P, Q no longer fits (worker.go:391) and must wait for the next block.
+// A builder whose gas pool is off after the refused transaction packs Q, and every importer
+// refuses the block.
+func (s *sim) scriptCrowd() bool {
+	order := make([]int, nClients)
+	for i := range order {
+		order[i] = i
+	}
+	sort.Slice(order, func(i, j int) bool { return s.g.prices[order[i]].Cmp(s.g.prices[order[j]]) > 0 })
+	X, P, Q := order[0], order[1], order[2]
+	st := s.head()
+	for _, c := range []int{X, P, Q} {
+		if a := s.act.clients[c].addr; s.b.Pool.Nonce(a) != st.GetNonce(a) {
+			return false // something of theirs is still waiting in the pool
+		}
+	}
+	hb := s.b.Chain.CurrentBlock()
+	L := core.CalcGasLimit(hb)
+	if hb.GasLimit() < L {
+		L = hb.GasLimit()
+	}
+	if L < 1_000_000 {
+		return false
+	}
+	price := s.g.prices[X]
+	bal := st.GetBalance(s.act.clients[X].addr)
+	gBad := []uint64{3_000_000, 60_000, L - 100_000}[s.c.Intn("crowd-refused-gas", 3)]
+	need := new(big.Int).Mul(new(big.Int).SetUint64(2*(gBad+21000)), price)
+	half := new(big.Int).Rsh(bal, 1)
+	if half.Cmp(need) <= 0 {
+		return false
+	}
+	s.r.Logf("  script crowd: X=C%d P=C%d Q=C%d block gas limit %d", X, P, Q, L)
+	to := s.act.clients[P].addr
+	if s.submit(X, &to, half, 21000, nil, &intent{kind: "transfer"}, fmt.Sprintf("transfer %v -> %s (half of the balance)", half, s.act.name(to))) == nil {
+		return true
+	}
+	// left after the first: bal - half - 21000*price; after buying gBad gas: that - gBad*price
+	left := new(big.Int).Sub(bal, half)
+	left.Sub(left, new(big.Int).Mul(big.NewInt(21000), price))
+	left.Sub(left, new(big.Int).Mul(new(big.Int).SetUint64(gBad), price))
+	over := new(big.Int).Add(left, big.NewInt(1+int64(s.c.Intn("crowd-over", 3))*1_000_000))
+	s.submit(X, &to, over, gBad, nil, &intent{kind: "transfer"}, fmt.Sprintf("transfer %v -> %s (more than what is left after buying gas: the builder must refuse it)", over, s.act.name(to)))
+	toQ, toP := s.act.clients[Q].addr, s.act.clients[X].addr
+	s.submit(P, &toQ, yous(1), L-30000, nil, &intent{kind: "transfer"}, fmt.Sprintf("transfer 1 YOU -> %s (gas limit = block limit - 30000)", s.act.name(toQ)))
+	s.submit(Q, &toP, yous(1), L-41999, nil, &intent{kind: "transfer"}, fmt.Sprintf("transfer 1 YOU -> %s (gas limit = block limit - 41999: does not fit after two transfers)", s.act.name(toP)))
+	s.r.Probe("crowd-script")
 	return true
 }
 
